@@ -554,9 +554,21 @@ package lfs
 //@   at send revs assert mapval__ == scanner.next.DstSha
 //@ func (*DiffIndexScanner).Scan
 //@   assumed
-//@   props C05
-//@   modifies fresh, fields s
+//@   props C05 C13
+//@   modifies fresh, fields s, ghost discans, ghost lastdiscan
 //@   ensures result ==> s.next != nil
+// Checked although assumed (C13, C05): one call consumes one line of `git
+// diff-index` output and yields the entry parsed from it - whatever its mode:
+// no entry is skipped (fsck and status see every staged path).
+//@   requires @inv s != nil
+//@   ensures @checked discans(0) <= old(discans(0)) + 1
+//@   ensures @checked result ==> discans(0) == old(discans(0)) + 1 && s.next == lastdiscan(0) && s.err == nil
+//@ func (*DiffIndexScanner).scan
+//@   assumed
+//@   props C05 C13
+//@   modifies fresh
+//@   monitor discans[0] := old(discans(0)) + 1
+//@   monitor lastdiscan[0] := result0
 // An index entry is recorded under its blob id unless the very same pair of blob
 // id and name was recorded before - two entries of one path with different ids
 // (the staged blob and the all-zero id of a file modified again) are both kept.
